@@ -486,6 +486,33 @@ def _write_uN_be(ex, callee, argv):
     return Agg([UNIT], 0, "Result::Ok")
 
 
+def _cursor_new(ex, callee, argv):
+    return Agg([argv[0], Sc(0, "usize")], name="Cursor")
+
+
+def _cursor_read(ex, callee, argv):
+    """byteorder ReadBytesExt on std::io::Cursor<&[u8]>: read_u8 / read_u16 / read_u32 / read_u64 (big or little endian)"""
+    m = re.search(r"read_u(8|16|32|64)", callee)
+    nb = int(m.group(1)) // 8
+    cur = ex.load(argv[0])
+    if not (isinstance(cur, Agg) and cur.name == "Cursor"):
+        raise Unsupported("read on %r" % (cur,))
+    sl, ss, sn = _as_list_ref(ex, cur.f[0])
+    pos = cur.f[1].v
+    if pos + nb > sn:
+        return Agg([Opaque("io::Error(UnexpectedEof)")], 1, "Result::Err")
+    bs = [sl[ss + pos + i] for i in range(nb)]
+    cur.f[1] = Sc(pos + nb, "usize")
+    raw = getattr(ex, "_last_callee_raw", "") + callee
+    if "LittleEndian" in raw:
+        bs = bs[::-1]
+    ty = "u%d" % (8 * nb)
+    if nb == 1:
+        return Agg([bs[0]], 0, "Result::Ok")
+    val = ex.call("core::num::<impl %s>::from_be_bytes" % ty, [Agg(list(bs), name="array")])
+    return Agg([val], 0, "Result::Ok")
+
+
 def _write_u8(ex, callee, argv):
     v = ex.load(argv[0])
     v.f.append(argv[1])
@@ -826,6 +853,8 @@ TABLE = [
     (re.compile(r"^<std::str::Bytes as Iterator>::next$"), _bytes_next),
     (re.compile(r"^<Vec<u8> as WriteBytesExt>::write_u(16|32|64)$"), _write_uN_be),
     (re.compile(r"^<Vec<u8> as WriteBytesExt>::write_u8$"), _write_u8),
+    (re.compile(r"^(std::io::)?Cursor::new$"), _cursor_new),
+    (re.compile(r"^<(std::io::)?Cursor<.*> as ReadBytesExt>::read_u(8|16|32|64)$"), _cursor_read),
     (re.compile(r"^slice::<impl \[Vec<\w+>\]>::concat$"), _concat_vecs),
     (re.compile(r"^<&?\w+ as (Add|Sub|Mul|Shr|Shl|BitAnd|BitOr|BitXor)<&?\w+>>::\w+$"), _ref_binop),
     (re.compile(r"^Vec::truncate$"), _vec_truncate), (re.compile(r"^Vec::clear$"), _vec_clear), (re.compile(r"^Vec::pop$"), _vec_pop),
